@@ -15,7 +15,7 @@ func init() {
 	register(&Prop{
 		ID:    "C14",
 		Level: "exploration",
-		Rule: "case = (2..8 raw peers logged in as the same user, each running its own seeded command history over 3 shared mailboxes: SELECT/EXAMINE, COPY and MOVE in both directions, FETCH with bodies, STORE, EXPUNGE, APPEND, LIST, STATUS, SEARCH, CREATE/DELETE/RENAME, IDLE, CLOSE; optionally slow or stalled readers with tiny socket buffers), all truly concurrent, under a seeded schedule with a scheduling point at every mutex Lock/Unlock of server, tracker and backend, every channel operation and every conn call. " +
+		Rule: "case = (2..8 raw peers logged in as the same user, each running its own seeded command history over 3 shared mailboxes: SELECT/EXAMINE, COPY and MOVE in both directions, FETCH with bodies, STORE, EXPUNGE, APPEND, LIST, STATUS, SEARCH, CREATE/DELETE/RENAME, IDLE (ended by DONE, by a disconnect or by another line), CLOSE; optionally slow or stalled readers with tiny socket buffers), all truly concurrent, under a seeded schedule with a scheduling point at every mutex Lock/Unlock of server, tracker and backend, every channel operation and every conn call. " +
 			"A second pass runs a share of the cases in the race-visible build. Non-trivial: at least two peers completed a command. Distinct: distinct event-log hashes.",
 		Components:   "real: imapserver.Server/Conn, trackers, imapmemserver, internal/imapwire (woven); stub: scripted raw peers, network, clock, scheduler",
 		Assumptions:  []string{"a stalled peer may delay the others at most until the server's write deadline (30 s / 5 min), so a peer gives up on a reply only after 10 simulated minutes", "lock-order cycles seen in the lock graph are suspects only; a violation is reported only when the deadlock materialises in a run"},
@@ -72,9 +72,14 @@ func genC14Peer(t *simrt.Tape, id int, n int) []rawCmd {
 			c := add("IDLE")
 			c.Cont = []string{"DONE"}
 			c.IdleFor = []time.Duration{0, time.Second, 2 * time.Minute, 31 * time.Minute}[t.Choose(4)]
-			if t.Choose(6) == 0 {
+			switch t.Choose(6) {
+			case 0:
 				c.Hangup = true // disconnect while idling
 				return cmds
+			case 1:
+				// IDLE ended by something else than DONE, the next command right behind it
+				c.Cont = []string{"not done"}
+				add([]string{"SELECT " + box, "UNSELECT", "NOOP", "CLOSE"}[t.Choose(4)])
 			}
 		case 17:
 			add("SELECT " + box)
